@@ -10,6 +10,7 @@ import (
 	"crypto/sha256"
 	"fmt"
 	"os"
+	"sort"
 	"strings"
 	"time"
 
@@ -898,10 +899,23 @@ func (w *World) Mine() (id int, ok bool) {
 		return -1, false
 	}
 	old := w.TipID()
-	// MineBlock stamps the block with the wall clock; the tree's synthetic timestamps run ahead of it
-	// for a while after an earlier mined block.  Such a block is not a statement about the pool.
-	for _, ts := range w.Node.CM.TipState().PrevTimestamps {
-		if ts.After(time.Now().Add(-time.Second)) {
+	// MineBlock stamps the block with the wall clock.  Consensus wants a timestamp that is not before
+	// the median of the last (up to) eleven; the tree's synthetic timestamps can run ahead of the clock
+	// after earlier mined blocks.  A tip that alone is ahead of the clock (up to the 3h future limit)
+	// is legal and must not stop mining - only a median ahead of the clock does.
+	{
+		cs := w.Node.CM.TipState()
+		n := len(cs.PrevTimestamps)
+		if h := int(cs.Index.Height) + 1; h < n {
+			n = h
+		}
+		ts := append([]time.Time(nil), cs.PrevTimestamps[:n]...)
+		sort.Slice(ts, func(i, j int) bool { return ts[i].Before(ts[j]) })
+		median := ts[len(ts)/2]
+		if len(ts)%2 == 0 {
+			median = ts[len(ts)/2-1].Add(ts[len(ts)/2].Sub(ts[len(ts)/2-1]) / 2)
+		}
+		if median.After(time.Now().Add(-2 * time.Second)) {
 			w.Stats["mine:skipped-clock"]++
 			return -1, false
 		}
